@@ -11,6 +11,7 @@ from datetime import datetime, timedelta, timezone
 
 sys.path.insert(0, os.path.dirname(os.path.abspath(__file__)))
 from lib import Check, REPO, guarded, reslit, zlit, blit, listlit   # noqa: E402
+import gen_value                                                     # noqa: E402  (tools/: translator tie for __eq__/__hash__/copy)
 
 import logging                                                      # noqa: E402
 logging.disable(logging.CRITICAL)
@@ -586,6 +587,8 @@ def copy_checks(spec, style, props):
 def main():
     ck = Check('C15')
     ck.build_theories(['theories/Props/C15.vo', 'theories/Corr/ValueK.vo'])
+    rep = gen_value.main(REPO, os.path.join(ck.rundir, 'ValueGen.v'))    # __eq__/__hash__/copy regenerated from the working tree ...
+    ck.gen('ValueGen.v', rep, 'ValueGenEq.v')                            # ... proved equal to ValueM for all arguments
     ck.props('Props/C15.v')
     rng = ck.rng
     thorough = ck.tier == 'thorough'
